@@ -298,6 +298,10 @@ func c10Paths(doc map[string]any) map[string]any {
 }
 
 func c10PickEntity(t *rapid.T, doc map[string]any, l string) map[string]any {
+	// path parameters are only checked on paths: make sure one exists to inherit what lands in pathDefaults
+	if p := c10Paths(doc); len(p) == 0 {
+		p["cam1"] = nil
+	}
 	ents, _ := c10Entities(doc)
 	if len(ents) == 0 || rapid.IntRange(0, 3).Draw(t, l+".new") == 0 {
 		m := map[string]any{}
@@ -347,10 +351,13 @@ var c10SemanticFaults = []struct {
 	{"recordpath-tokens", func(t *rapid.T, doc map[string]any, l string) {
 		e := c10PickEntity(t, doc, l)
 		e["recordPath"] = rapid.SampledFrom([]string{"./rec/%Y-%m-%d_%H-%M-%S-%f", "./rec/%path/%Y-%m-%d_%H-%M-%f", "./rec/%path/%f", "./rec/%path/x", "",
-			"./rec/%Path/%Y-%m-%d_%H-%M-%S-%f", "./rec/%path/%Y-%m-%d_%H-%M-%S", "./rec/%path/%s"}).Draw(t, l+".v")
-		if rapid.Bool().Draw(t, l+".playback") {
-			doc["playback"] = true
-		}
+			"./rec/%Path/%Y-%m-%d_%H-%M-%S-%f", "./rec/%path/%Y-%m-%d_%H-%M-%S-%F", "./rec/%path/%S"}).Draw(t, l+".v")
+	}},
+	{"recordpath-no-micros-with-playback", func(t *rapid.T, doc map[string]any, l string) {
+		e := c10PickEntity(t, doc, l)
+		e["recordPath"] = rapid.SampledFrom([]string{"./rec/%path/%Y-%m-%d_%H-%M-%S", "./rec/%path/%s", "/r/%path/%Y/%m/%d/%H%M%S%z", "./rec/%path/%s_%F"}).Draw(t, l+".v")
+		doc["playback"] = true
+		delete(doc, "playbackAddress")
 	}},
 	{"recordpath-global-deprecated", func(t *rapid.T, doc map[string]any, l string) {
 		doc["recordPath"] = rapid.SampledFrom([]string{"./rec/%Y-%m-%d_%H-%M-%S-%f", "./rec/%path/%H-%M-%S-%f", "x"}).Draw(t, l+".v")
